@@ -7,24 +7,150 @@ From Emmet Require Import lib.Base model.MarkupTokenizer model.MarkupParser proo
      proofs.TextSpec proofs.TextProofs proofs.TextParse proofs.AttrParseProofs proofs.AttrText.
 Local Open Scope nat_scope.
 
-(* ================================================================ one attribute as a written token attribute *)
-Definition wat (pos : nat) (a : sattr) : wattr :=
-  let n := [aname_tok pos a] in
-  let p := pos + length (aname_text a) in
-  match sa_value a with
-  | SNone => WName n
-  | SEmpty => WEmpty n (tk1 (TOperator OpEqual) p)
-  | SUnq v => WUnq n (tk1 (TOperator OpEqual) p) [mkTok (TLiteral v) (p + 1) (p + 1 + length v)]
-  | SQuo s q =>
-      WQuoted n (tk1 (TOperator OpEqual) p) (tk1 (TQuote s) (p + 1)) (text_tokens (p + 2) q)
-              (tk1 (TQuote s) (p + 2 + length q))
-  | SBrace e =>
-      WExpr n (tk1 (TOperator OpEqual) p) (tk1 (TBracket true BExpr) (p + 1)) (text_tokens (p + 2) e)
-            (tk1 (TBracket false BExpr) (p + 2 + length e))
+(* ================================================================ attribute runs, generalised *)
+(* [reads ts a]: attribute() reads the token run [ts] as the TokenAttribute [a] whenever white space
+   or the closing `]` follows.  (AttrParseProofs.attribute_reads: every well-formed written attribute is
+   such a run; below also unquoted values with parentheses.) *)
+Definition reads (ts : list token) (a : tattr) : Prop :=
+  ts <> [] /\ forall rest, ends_attr rest -> attribute (ts ++ rest) = AOk a (length ts).
+
+Lemma reads_wattr w : wf w -> reads (wtokens w) (wparsed w).
+Proof.
+  intros W. split.
+  - destruct (wtokens_nonempty w W) as [t [r E]]. rewrite E. discriminate.
+  - intros rest E. apply attribute_reads; assumption.
+Qed.
+
+Definition run := (list token * tattr * list token)%type.
+Fixpoint render_runs (l : list run) : list token :=
+  match l with
+  | [] => []
+  | (ts, _, ws) :: r => ts ++ ws ++ render_runs r
+  end.
+Fixpoint runs_ok (l : list run) : Prop :=
+  match l with
+  | [] => True
+  | (ts, a, ws) :: r => reads ts a /\ forallb is_white_space_tok ws = true /\ (r <> [] -> ws <> []) /\ runs_ok r
   end.
 
-Lemma wat_tokens pos a : wtokens (wat pos a) = attr_toks pos a.
-Proof. unfold wat, attr_toks. destruct (sa_value a); reflexivity. Qed.
+Lemma attr_set_loop_run ts a rest acc : reads ts a -> ends_attr rest ->
+  attr_set_loop 0 acc (ts ++ rest) = lift (length ts) (attr_set_loop 0 (acc ++ [a]) rest).
+Proof.
+  intros [Hne R] E. pose proof (R rest E) as A.
+  destruct ts as [|t r]; [congruence|].
+  change ((t :: r) ++ rest) with (t :: (r ++ rest)) in *.
+  cbn [attr_set_loop]. rewrite A. cbn [length pred].
+  rewrite attr_set_loop_skip.
+  destruct (attr_set_loop 0 (acc ++ [a]) rest) as [[l c]|]; reflexivity.
+Qed.
+
+Lemma attr_set_loop_runs : forall l acc close after,
+  runs_ok l -> is_close_attr close = true ->
+  attr_set_loop 0 acc (render_runs l ++ close :: after) =
+  POk (acc ++ map (fun r => snd (fst r)) l, length (render_runs l) + 1).
+Proof.
+  induction l as [|[[ts a] ws] r IH]; intros acc close after OK C.
+  - simpl. rewrite attribute_close by exact C. unfold is_close_attr in C. rewrite C. rewrite app_nil_r. reflexivity.
+  - simpl in OK. destruct OK as [W [Hws [Hne OKr]]].
+    cbn [render_runs]. rewrite <- !app_assoc.
+    rewrite (attr_set_loop_run ts a); [|exact W|].
+    + rewrite attr_set_loop_ws by exact Hws.
+      rewrite IH by assumption. cbn [lift map fst snd].
+      rewrite <- app_assoc. simpl. f_equal. f_equal. rewrite !app_length. lia.
+    + destruct ws as [|t ws'].
+      * simpl. destruct r as [|x r']; [simpl; right; exact C|]. exfalso. apply Hne; [discriminate|reflexivity].
+      * apply ends_attr_ws; [exact Hws|discriminate].
+Qed.
+
+Theorem attribute_set_runs open l close after :
+  is_bracket open (Some BAttr) (Some true) = true -> runs_ok l -> is_close_attr close = true ->
+  attribute_set (open :: render_runs l ++ close :: after) =
+  ASOk (map (fun r => snd (fst r)) l) (length (open :: render_runs l) + 1).
+Proof.
+  intros O OK C. unfold attribute_set. rewrite O.
+  rewrite attr_set_loop_runs by assumption. cbn [app length]. reflexivity.
+Qed.
+
+(* ================================================================ unquoted values with parentheses *)
+Lemma uq_toks_nil n pos : uq_toks n pos [] = [].
+Proof. destruct n; reflexivity. Qed.
+
+Lemma pdepth_asafe : forall w v d, forallb asafe w = true -> pdepth d (w ++ v) = pdepth d v.
+Proof.
+  induction w as [|c w IH]; intros v d H; [reflexivity|].
+  cbn [forallb] in H. apply andb_true_iff in H. destruct H as [Hc Hw].
+  destruct (asafe_not_paren c Hc) as [H1 H2]. cbn [app pdepth]. rewrite H1, H2. apply IH. exact Hw.
+Qed.
+
+(* literal(allow_brackets=True) runs through the whole value and keeps the parenthesis count *)
+Lemma literal_uq : forall n v, length v <= n -> forallb usafe v = true ->
+  forall d d' pos rest, pdepth d v = Some d' ->
+  literal_n true 0 0 (Z.of_nat d) (uq_toks n pos v ++ rest) =
+    length (uq_toks n pos v) + literal_n true 0 0 (Z.of_nat d') rest.
+Proof.
+  induction n as [|n IH]; intros v Hlen Hsafe d d' pos rest Hd.
+  - destruct v; [|cbn [length] in Hlen; lia]. cbn in Hd. injection Hd as <-. reflexivity.
+  - destruct v as [|c r].
+    { cbn in Hd. injection Hd as <-. reflexivity. }
+    cbn [length] in Hlen. pose proof Hsafe as Hsafe0.
+    cbn [forallb] in Hsafe. apply andb_true_iff in Hsafe. destruct Hsafe as [Hc Hr].
+    cbn [uq_toks]. cbn [pdepth] in Hd.
+    destruct (c =? c_lparen)%N eqn:E1.
+    { cbn [app literal_n length]. replace (truthy 0) with false by reflexivity.
+      cbn [is_quote_tok is_operator is_white_space_tok is_repeater_tok tk tk1 orb negb bump].
+      replace (Z.of_nat d + 1)%Z with (Z.of_nat (S d)) by lia.
+      rewrite (IH r ltac:(lia) Hr (S d) d' (pos + 1) rest Hd). reflexivity. }
+    destruct (c =? c_rparen)%N eqn:E2.
+    { destruct d as [|d0]; [discriminate|].
+      cbn [app literal_n length]. replace (truthy 0) with false by reflexivity.
+      cbn [is_quote_tok is_operator is_white_space_tok is_repeater_tok tk tk1 orb negb bump counter].
+      replace (truthy (Z.of_nat (S d0))) with true by (unfold truthy; destruct (Z.of_nat (S d0) =? 0)%Z eqn:E; [lia|reflexivity]).
+      cbn [negb].
+      replace (Z.of_nat (S d0) + -1)%Z with (Z.of_nat d0) by lia.
+      rewrite (IH r ltac:(lia) Hr d0 d' (pos + 1) rest Hd). reflexivity. }
+    assert (Hca : asafe c = true).
+    { unfold usafe, is_paren in Hc. rewrite E1, E2 in Hc. cbn [orb] in Hc. rewrite orb_false_r in Hc. exact Hc. }
+    set (v := c :: r) in *.
+    set (k := span asafe v).
+    set (w := firstn k v). set (v' := skipn k v).
+    assert (HW : forallb asafe w = true) by (apply Forall_forallb, span_all).
+    assert (HT : w ++ v' = v) by apply firstn_skipn.
+    assert (Hwne : w <> []).
+    { unfold w, k, v. cbn [span]. rewrite Hca. cbn [firstn]. discriminate. }
+    assert (Hv'safe : forallb usafe v' = true) by (apply forallb_skipn; exact Hsafe0).
+    assert (Hlen' : length v' <= n).
+    { assert (length v = length w + length v') by (rewrite <- HT, app_length; reflexivity).
+      destruct w; [congruence|]. cbn [length] in *. unfold v in H. cbn [length] in H. lia. }
+    assert (Hd' : pdepth d v' = Some d').
+    { rewrite <- (pdepth_asafe w v' d HW), HT. unfold v. cbn [pdepth]. rewrite E1, E2. exact Hd. }
+    clearbody w v' k.
+    cbn [app literal_n length]. replace (truthy 0) with false by reflexivity.
+    cbn [is_quote_tok is_operator is_white_space_tok is_repeater_tok tk word_tok orb].
+    rewrite (IH v' Hlen' Hv'safe d d' _ rest Hd'). reflexivity.
+Qed.
+
+Lemma uq_toks_head v pos :
+  v <> [] -> forallb usafe v = true ->
+  exists t r, uq_toks (length v) pos v = t :: r /\
+    ((exists w, tk t = TLiteral w) \/ (exists o, tk t = TBracket o BGroup)).
+Proof.
+  intros Hne Hs. destruct v as [|c r]; [congruence|]. cbn [length uq_toks].
+  destruct (c =? c_lparen)%N; [eexists; eexists; split; [reflexivity|right; eexists; reflexivity]|].
+  destruct (c =? c_rparen)%N; [eexists; eexists; split; [reflexivity|right; eexists; reflexivity]|].
+  eexists; eexists; split; [reflexivity|left; eexists; reflexivity].
+Qed.
+
+(* ================================================================ one written attribute as a run *)
+Definition attr_tattr (pos : nat) (a : sattr) : tattr :=
+  let p := pos + length (aname_text a) in
+  mkTAttr (Some [aname_tok pos a])
+    (match sa_value a with
+     | SNone | SEmpty => None
+     | SUnq v => Some (uq_toks (length v) (p + 1) v)
+     | SQuo s q => Some (tk1 (TQuote s) (p + 1) :: text_tokens (p + 2) q ++ [tk1 (TQuote s) (p + 2 + length q)])
+     | SBrace e =>
+         Some (tk1 (TBracket true BExpr) (p + 1) :: text_tokens (p + 2) e ++ [tk1 (TBracket false BExpr) (p + 2 + length e)])
+     end) false false.
 
 Lemma text_tokens_forallb (p : token -> bool) pos T :
   (forall t v, tk t = TWhiteSpace v -> p t = true) -> (forall t v, tk t = TLiteral v -> p t = true) ->
@@ -35,67 +161,89 @@ Proof.
   - destruct (body_part T); [reflexivity|]. cbn [forallb]. erewrite Hl by reflexivity. reflexivity.
 Qed.
 
-Lemma wat_wf pos a : wf (wat pos a).
+Lemma attr_reads pos a : sattr_ok a -> reads (attr_toks pos a) (attr_tattr pos a).
 Proof.
+  intros [_ [_ [_ [_ Hv]]]].
   assert (Hn : AttrParseProofs.name_ok [aname_tok pos a]) by (split; [discriminate|reflexivity]).
-  unfold wat. destruct (sa_value a) as [| |v|s q|e]; cbn [wf].
-  - exact Hn.
-  - split; [exact Hn|reflexivity].
-  - split; [exact Hn|]. split; [reflexivity|]. split; [discriminate|reflexivity].
-  - split; [exact Hn|]. split; [reflexivity|]. exists s. split; [reflexivity|]. split; [reflexivity|].
-    apply text_tokens_forallb; intros t v H; unfold is_quote_tok; rewrite H; reflexivity.
-  - split; [exact Hn|]. split; [reflexivity|]. split; [reflexivity|]. split; [reflexivity|].
-    apply text_tokens_forallb; intros t v H; unfold is_bracket; rewrite H; reflexivity.
+  unfold attr_toks, attr_tattr. set (p := pos + length (aname_text a)).
+  destruct (sa_value a) as [| |v|s q|e]; cbn [val_toks sval_ok] in *.
+  - exact (reads_wattr (WName [aname_tok pos a]) Hn).
+  - exact (reads_wattr (WEmpty [aname_tok pos a] (tk1 (TOperator OpEqual) p)) (conj Hn eq_refl)).
+  - (* unquoted, possibly with parentheses *)
+    destruct Hv as [Hne [Hsafe Hbal]]. split; [discriminate|]. intros rest E.
+    set (U := uq_toks (length v) (p + 1) v).
+    change ((aname_tok pos a :: tk1 (TOperator OpEqual) p :: U) ++ rest)
+      with ([aname_tok pos a] ++ tk1 (TOperator OpEqual) p :: (U ++ rest)).
+    rewrite attribute_unfold_name by (try exact Hn; apply eq_stops; reflexivity).
+    cbn [hd_is tl]. replace (is_operator (tk1 (TOperator OpEqual) p) (Some OpEqual)) with true by reflexivity.
+    cbv zeta.
+    destruct (uq_toks_head v (p + 1) Hne Hsafe) as [t [r [EU Hk]]]. fold U in EU.
+    assert (Hq : quoted (U ++ rest) = QNone).
+    { rewrite EU. cbn [app]. unfold quoted. destruct Hk as [[w Hk]|[o Hk]]; rewrite Hk; reflexivity. }
+    rewrite Hq.
+    assert (Hl : literal true (U ++ rest) = length U).
+    { pose proof (literal_uq (length v) v (le_n _) Hsafe 0 0 (p + 1) rest Hbal) as L.
+      cbn [Z.of_nat] in L. unfold literal, U. rewrite L. rewrite (ends_attr_stops rest E). lia. }
+    rewrite Hl. destruct (length U) as [|m] eqn:ELU; [rewrite EU in ELU; discriminate|].
+    rewrite <- ELU. rewrite firstn_app_exact. reflexivity.
+  - assert (W : wf (WQuoted [aname_tok pos a] (tk1 (TOperator OpEqual) p) (tk1 (TQuote s) (p + 1)) (text_tokens (p + 2) q)
+                            (tk1 (TQuote s) (p + 2 + length q)))).
+    { cbn [wf]. split; [exact Hn|]. split; [reflexivity|]. exists s. split; [reflexivity|]. split; [reflexivity|].
+      apply text_tokens_forallb; intros t v H; unfold is_quote_tok; rewrite H; reflexivity. }
+    exact (reads_wattr _ W).
+  - assert (W : wf (WExpr [aname_tok pos a] (tk1 (TOperator OpEqual) p) (tk1 (TBracket true BExpr) (p + 1))
+                          (text_tokens (p + 2) e) (tk1 (TBracket false BExpr) (p + 2 + length e)))).
+    { cbn [wf]. split; [exact Hn|]. split; [reflexivity|]. split; [reflexivity|]. split; [reflexivity|].
+      apply text_tokens_forallb; intros t v H; unfold is_bracket; rewrite H; reflexivity. }
+    exact (reads_wattr _ W).
 Qed.
 
 (* ---------------------------------------------------------------- the attribute list *)
-Fixpoint lay (pos : nat) (l : list sattr) : list (wattr * list token) :=
+Fixpoint lay (pos : nat) (l : list sattr) : list run :=
   match l with
   | [] => []
-  | [a] => [(wat pos a, [])]
-  | a :: l' => (wat pos a, [space_tok (pos + length (attr_text a))]) :: lay (pos + length (attr_text a) + 1) l'
+  | [a] => [(attr_toks pos a, attr_tattr pos a, [])]
+  | a :: l' =>
+      (attr_toks pos a, attr_tattr pos a, [space_tok (pos + length (attr_text a))])
+      :: lay (pos + length (attr_text a) + 1) l'
   end.
 
-Lemma lay_render : forall l pos, AttrParseProofs.render (lay pos l) = attrs_toks pos l.
+Lemma lay_cons pos a b l' :
+  lay pos (a :: b :: l') =
+    (attr_toks pos a, attr_tattr pos a, [space_tok (pos + length (attr_text a))])
+    :: lay (pos + length (attr_text a) + 1) (b :: l').
+Proof. reflexivity. Qed.
+
+Lemma lay_render : forall l pos, render_runs (lay pos l) = attrs_toks pos l.
 Proof.
   induction l as [|a l IH]; intros pos; [reflexivity|].
   destruct l as [|b l'].
-  - cbn [lay AttrParseProofs.render attrs_toks app]. rewrite wat_tokens, app_nil_r. reflexivity.
-  - change (lay pos (a :: b :: l')) with
-      ((wat pos a, [space_tok (pos + length (attr_text a))]) :: lay (pos + length (attr_text a) + 1) (b :: l')).
-    cbn [AttrParseProofs.render]. rewrite IH, wat_tokens. reflexivity.
+  - cbn [lay render_runs attrs_toks app]. rewrite app_nil_r. reflexivity.
+  - rewrite lay_cons. cbn [render_runs]. rewrite IH. reflexivity.
 Qed.
 
-Lemma lay_ok : forall l pos, list_ok (lay pos l).
+Lemma lay_ok : forall l pos, Forall sattr_ok l -> runs_ok (lay pos l).
 Proof.
-  induction l as [|a l IH]; intros pos; [exact I|].
+  induction l as [|a l IH]; intros pos HF; [exact I|].
+  inversion HF as [|x y Ha HF']; subst.
   destruct l as [|b l'].
-  - cbn [lay list_ok]. split; [apply wat_wf|]. split; [reflexivity|]. split; [intros H; congruence|exact I].
-  - change (lay pos (a :: b :: l')) with
-      ((wat pos a, [space_tok (pos + length (attr_text a))]) :: lay (pos + length (attr_text a) + 1) (b :: l')).
-    cbn [list_ok]. split; [apply wat_wf|]. split; [reflexivity|]. split; [intros _; discriminate|apply IH].
+  - cbn [lay runs_ok]. split; [apply attr_reads; exact Ha|]. split; [reflexivity|]. split; [intros H; exfalso; apply H; reflexivity|exact I].
+  - rewrite lay_cons. cbn [runs_ok]. split; [apply attr_reads; exact Ha|]. split; [reflexivity|].
+    split; [intros _; discriminate|apply IH; exact HF'].
 Qed.
 
-Lemma lay_length : forall l pos, length (lay pos l) = length l.
-Proof.
-  induction l as [|a l IH]; intros pos; [reflexivity|].
-  destruct l as [|b l']; [reflexivity|].
-  change (lay pos (a :: b :: l')) with
-    ((wat pos a, [space_tok (pos + length (attr_text a))]) :: lay (pos + length (attr_text a) + 1) (b :: l')).
-  cbn [length]. rewrite IH. reflexivity.
-Qed.
-
-Definition set_tattrs (pos : nat) (l : list sattr) : list tattr := map (fun p => wparsed (fst p)) (lay pos l).
+Definition set_tattrs (pos : nat) (l : list sattr) : list tattr := map (fun r => snd (fst r)) (lay pos l).
 
 (* `[a1 a2 ... an]`: attribute_set reads back exactly the written attributes and consumes through `]` *)
 Lemma attribute_set_part pos l after :
+  Forall sattr_ok l ->
   attribute_set (part_toks pos (PSet l) ++ after) = ASOk (set_tattrs (pos + 1) l) (length (part_toks pos (PSet l))).
 Proof.
-  cbn [part_toks]. rewrite <- lay_render.
-  pose proof (attribute_set_reads (tk1 (TBracket true BAttr) pos) [] (lay (pos + 1) l)
+  intros HF. cbn [part_toks]. rewrite <- lay_render.
+  pose proof (attribute_set_runs (tk1 (TBracket true BAttr) pos) (lay (pos + 1) l)
                 (tk1 (TBracket false BAttr) (pos + 1 + length (attrs_text l))) after
-                eq_refl eq_refl (lay_ok l (pos + 1)) eq_refl) as H.
-  cbn [app] in H. cbn [app]. rewrite <- app_assoc. cbn [app]. rewrite H.
+                eq_refl (lay_ok l (pos + 1) HF) eq_refl) as H.
+  cbn [app]. rewrite <- app_assoc. cbn [app]. rewrite H.
   unfold set_tattrs. f_equal. cbn [length]. rewrite !app_length. cbn [length]. lia.
 Qed.
 
@@ -219,7 +367,7 @@ Proof.
     rewrite text_zero by reflexivity.
     rewrite (short_attribute_other jsx OpId) by reflexivity.
     rewrite (short_attribute_other jsx OpClass) by reflexivity.
-    pose proof (attribute_set_part pos l rest) as H. cbn [part_toks app] in H. rewrite H.
+    pose proof (attribute_set_part pos l rest Hok) as H. cbn [part_toks app] in H. rewrite H.
     destruct (e_value s); reflexivity.
 Qed.
 
